@@ -140,6 +140,7 @@ def gen_case(rng, tier="quick"):
         "wmode": rng.choice(disk.WRITER_MODES),
         "rmode": rng.choice(disk.READER_MODES),
         "bufsize": rng.choice((1, 7, 16, 64, 512, 8192)),
+        "strided": rng.random() < 0.1,
     }
 
 
@@ -213,7 +214,12 @@ def expand(case):
 
 
 def entries_dict(case):
-    return {tuple(k): numpy.array(rows_of(v), dtype=U32) for k, v in case["entries"]}
+    out = {tuple(k): numpy.array(rows_of(v), dtype=U32) for k, v in case["entries"]}
+    if case.get("strided"):
+        from .. import model
+
+        out = model.strided(out)
+    return out
 
 
 # ------------------------------------------------------------------------------ primitives
@@ -802,21 +808,27 @@ def minimise(prop, case, signature):
 
 
 RULES = {
-    "C10": "seeded entry sets (arity 1-4, 0-8 entries [thorough: up to 24], coordinate and common magnitudes "
-           "drawn independently from the four INDX word classes with boundary bias, row-id arrays of "
-           "length 0-6 [thorough: up to 40] up to 2^32-1) plus indexes from the C06 history generator; "
-           "each is saved by the real IndxIO.save through a logging file object on a memfd, the disk is "
-           "cleanly restarted and the real IndxIO.load runs on a fresh descriptor. distinct = distinct "
-           "(common, entries) contents; non-trivial = at least one entry with at least one row id",
-    "C11": "same generator as C10; per file: library bytes == independent encoder bytes, independent decoder "
-           "recovers the data, library loader recovers the data from the independent encoder's bytes for "
-           "every admissible (index word, row-id word) pair; plus %d stand-in cases whose row ids total "
-           "2^30-8 .. 2*2^32 on a sparse memfd (size word, file length and loaded lengths checked). "
-           "distinct/non-trivial as C10 (scale cases count as non-trivial)" % len(SCALE_CASES),
-    "C12": "same generator as C10; for each file the write log of the real save is reconstructed "
-           "(Python-level writes and C-level tofile blocks) and EVERY byte-granular crash state is "
-           "materialised, restarted and loaded; additionally the real save is re-run with the disk full "
-           "after k bytes for EVERY k < len(F), with an unbuffered and a buffered file object; load must "
-           "raise each time. evaluations = files; distinct/non-trivial as C10; exhaustive over cut points "
-           "per file, sampled over files",
+    "C10": "one run = 1-3 files saved and loaded one after the other in one process (30 % of runs hold related files: same "
+           "coordinates under another common/word size, the same coordinate bytes re-read under another word size, one "
+           "entry more/fewer). Files: seeded entry sets (arity 1-4, 0-8 entries [thorough: up to 24], coordinate and common "
+           "magnitudes drawn independently from the four INDX word classes with boundary bias, row-id arrays of length 0-6 "
+           "[thorough: up to 40] up to 2^32-1; rarely one array of 255..300000 ids [thorough: 4.3 M], 256..66000 entries, or "
+           "a dense small-valued index of 200..70000 rows; contiguous or strided arrays) plus indexes reached by short C06 "
+           "histories; each is saved by the real IndxIO.save through a logging file object (raw / BufferedWriter / "
+           "BufferedRandom, buffer 1..8192) on a memfd, the disk is cleanly restarted and the real IndxIO.load runs on a "
+           "fresh descriptor. distinct = distinct (common, entries) contents; non-trivial = at least one entry with at "
+           "least one row id",
+    "C11": "same generator as C10; per file: library bytes == independent encoder bytes, independent decoder recovers the "
+           "data, library loader recovers the data from the independent encoder's bytes for every admissible (index word, "
+           "row-id word) pair (big files: narrowest pair and (8,8) only); plus %d stand-in cases whose row ids total "
+           "2^30-8 .. 2*2^32 on a sparse memfd (size word, file length and loaded lengths checked). distinct/non-trivial as "
+           "C10 (scale cases count as non-trivial)" % len(SCALE_CASES),
+    "C12": "same generator as C10, one file per run; for each small file (<= 600 row ids) the write log of the real save is "
+           "reconstructed (Python-level writes and C-level tofile blocks) and EVERY byte-granular crash state is "
+           "materialised, restarted and loaded; the real save is re-run with the disk full after k bytes for EVERY "
+           "k < len(F) with an unbuffered and a buffered file object; and the complete file is loaded, held, and then the "
+           "SAME inode is truncated in place at EVERY k (plus re-saved in place and cut at 5 offsets). Big files (up to "
+           "1.2 MB, thorough 17 MB) are torn at ~60 sampled cut points (field boundaries +-1, ends, page and power-of-two "
+           "offsets, seeded random) and saved against a full disk at a quarter of them. load must raise each time. "
+           "evaluations = files; distinct/non-trivial as C10; exhaustive over cut points per small file, sampled over files",
 }
